@@ -20,6 +20,8 @@ def do_call(ws, call):
     kind = call[0]
     if kind == "send_text":
         ws.send_text(call[1])
+    elif kind == "send_text_raw":
+        ws.send_text(call[1], compress=False)
     elif kind == "send_binary":
         ws.send_binary(call[1].encode("utf-8"))
     elif kind == "send_ping":
@@ -49,7 +51,10 @@ def run_schedule(scn_def, schedule, keep_log=False):
     """
     deflate = scn_def.get("deflate", False)
     loop = scn_def.get("loop")
-    script = [["wait_request"], ["stream", [["reply", deflate_reply() if deflate else None]], "whole", 0.0]]
+    reply = None
+    if deflate:
+        reply = httpref.canonical_spec(extensions=[scn_def.get("extension", "permessage-deflate")])
+    script = [["wait_request"], ["stream", [["reply", reply]], "whole", 0.0]]
     if loop and loop.get("bytes"):
         script.append(["stream", [["bytes", bytes.fromhex(loop["bytes"])]], "whole", 0.0])
     copts = dict(scn_def.get("copts", {"ping_rate": 0}))
